@@ -165,7 +165,8 @@ theorem dot_zip (f : Int → Int → Int) (α β : Rat)
     induction bs generalizing i with
     | nil => simp [zipCoeffs, dot]
     | cons b bs ihb =>
-      simp only [zipCoeffs, dot, ihb, hf]
+      simp only [zipCoeffs] at ihb
+      simp only [zipCoeffs, List.map_cons, dot, ihb, hf]
       simp; ring
   | cons a as ih =>
     cases bs with
@@ -203,7 +204,7 @@ theorem length_zip (f : Int → Int → Int) (as bs : List Int) :
   | nil =>
     induction bs with
     | nil => simp [zipCoeffs]
-    | cons b bs ihb => simp [zipCoeffs] at ihb ⊢; exact ihb
+    | cons b bs ihb => simp [zipCoeffs]
   | cons a as ih =>
     cases bs with
     | nil => have := ih []; simp [zipCoeffs] at this ⊢; exact this
